@@ -2,11 +2,13 @@
 from __future__ import annotations
 
 import ast
+import re
 from typing import Dict, List, Optional, Set, Tuple
 
 from .core import AnalysisError, Report
 from .emit import Folder, Slot, Tpl
-from .prog import (ClassInfo, Program, enclosing, func_params, guards_of, inline_locals, local_assignments, parent,
+from .rules_alias import reaching_defs
+from .prog import (ClassInfo, Program, enclosing, func_params, guards_of, inline_locals, local_assignments, parent, value_def,
                    stmt_of, unparse, walk_no_nested)
 
 MW = "gtwrap/matlab_wrapper/wrapper.py"
@@ -153,6 +155,19 @@ def _affine(e: ast.AST, base: ast.AST) -> Optional[str]:
     return None
 
 
+def _add_offsets(a: str, b: str) -> str:
+    """Sum of two offsets in the normal form of _affine."""
+    if a == "+0":
+        return b
+    if b == "+0":
+        return a
+    ma, mb = re.fullmatch(r"([+-])(\d+)", a), re.fullmatch(r"([+-])(\d+)", b)
+    if ma and mb:
+        v = int(ma.group(1) + ma.group(2)) + int(mb.group(1) + mb.group(2))
+        return f"+{v}" if v >= 0 else str(v)
+    return "?"
+
+
 def inventory(ctx) -> List[Site]:
     ci, prog = mw(ctx)
     sites: List[Site] = []
@@ -170,6 +185,10 @@ def inventory(ctx) -> List[Site]:
                 b = bind_call(alloc_fn, call, drop_self=True)
                 pnames = func_params(alloc_fn)[1:]
                 s.role = b.get(pnames[0])
+                if isinstance(s.role, ast.Name):
+                    rv = value_def(fn, s.role.id)          # the role tuple may be built once and named
+                    if isinstance(rv, ast.Tuple):
+                        s.role = rv
                 s.id_diff = b.get("id_diff")
                 s.function_name = b.get("function_name")
                 s.guards = guards_of(call, fn, include_exits=False)
@@ -183,9 +202,12 @@ def inventory(ctx) -> List[Site]:
                 if isinstance(p, ast.keyword):
                     fmt_call, key = parent(p), p.arg
                     s.offset = _affine(val, call) or "?"
-                elif isinstance(p, ast.Assign) and len(p.targets) == 1 and isinstance(p.targets[0], ast.Name) and val is call:
+                elif isinstance(p, ast.Assign) and len(p.targets) == 1 and isinstance(p.targets[0], ast.Name) and (val is call or _affine(val, call) is not None):
                     var = p.targets[0].id
-                    uses = [u for u in walk_no_nested(fn) if isinstance(u, ast.Name) and u.id == var and isinstance(u.ctx, ast.Load)]
+                    off0 = _affine(val, call) or "+0"
+                    # the uses this very assignment reaches (a name bound in each arm of an if/else has one use per arm)
+                    uses = [u for u in walk_no_nested(fn) if isinstance(u, ast.Name) and u.id == var and isinstance(u.ctx, ast.Load)
+                            and any(d is p for d in reaching_defs(fn, var, u)[0])]
                     if len(uses) != 1:
                         s.problems.append(f"the id held in `{var}` is used {len(uses)} times")
                     else:
@@ -195,7 +217,7 @@ def inventory(ctx) -> List[Site]:
                         if isinstance(q, ast.BinOp) and q.left is u:
                             v2 = q
                             q = parent(q)
-                        off = _affine(v2, u) or "?"
+                        off = _add_offsets(off0, _affine(v2, u) or "?")
                         # the (shifted) id may pass through one more local before it is formatted: `id_v = base - 1; ...format(id=id_v)`
                         hops = 0
                         while isinstance(q, ast.Assign) and len(q.targets) == 1 and isinstance(q.targets[0], ast.Name) and q.value is v2 and hops < 3:
@@ -424,6 +446,7 @@ def rule_offsets(ctx, rep: Report, rid="I4"):
             g = [t for t, pol in s.guards if pol]
             ok = s.offset == "+1" and len(g) == 1 and nxt is not None and nxt.role is not None
             detail = f"unnamed id embedded as ret{s.offset} under {g}"
+            split = False
             if ok:
                 gd = g[0]
                 want_diff = f"-1 if {gd} else 0"
@@ -431,6 +454,12 @@ def rule_offsets(ctx, rep: Report, rid="I4"):
                 got_diff = unparse(nxt.id_diff) if nxt.id_diff is not None else "0"
                 ok = got_diff == want_diff and nxt.offset == want_off and \
                     [t for t, pol in nxt.guards] == []
+                if not ok and got_diff == "-1" and nxt.offset == "-1" and [(t, pol) for t, pol in nxt.guards] == [(gd, True)]:
+                    # the same pair written branch by branch: under the flag the partner is registered and embedded one lower; the
+                    # other branch allocates the same role unshifted (checked below as an ordinary site)
+                    other = sites[i + 2] if i + 2 < len(sites) and sites[i + 2].fn is s.fn else None
+                    ok = split = other is not None and other.role is not None and unparse(other.role) == unparse(nxt.role) and \
+                        [(t, pol) for t, pol in other.guards] == [(gd, False)]
                 detail += f"; partner id_diff={got_diff}, embedded as ret{nxt.offset}"
                 # nothing allocates between the two
             rep.add(rid, key + ":virtual pair (hole embeds ret+1; partner named and embedded one lower under the same flag)",
@@ -1123,3 +1152,100 @@ def rule_entry_describes_its_own_overload(ctx, rep: Report, rid="I8"):
                 f"{ci.mod.rel}:{s.call.lineno}")
     if n < 4:
         raise AnalysisError(f"{rep.prop}/{rid}: only {n} allocation sites inside loops")
+
+
+def _all_methods(prog, ci) -> Dict[str, ast.FunctionDef]:
+    out: Dict[str, ast.FunctionDef] = {}
+    for c in reversed(prog.mro(ci)):
+        out.update(c.methods)
+    return out
+
+
+def run_constructor_emitter(ctx, virt: bool, par: bool):
+    """(emitted text, the sample wrapper object) of wrap_class_constructors run by the analyser's interpreter on a sample class
+    `ns::Derived` (virtual or not, with base `ns::Base` or without, no constructors of its own); None when not evaluable."""
+    from .rules_matlab import SampleObj, _PathEval, _Raised, mini_exec
+    ci, prog = mw(ctx)
+    fn = prog.method("MatlabWrapper", "wrap_class_constructors")
+    ps = func_params(fn)
+    if len(ps) != 6:
+        return None
+    me = SampleObj(module_name="mod", wrapper_id=7, wrapper_map={}, ignore_namespace=("Matrix", "Vector", "Point2", "Point3"), data_type={}, data_type_param={})
+    root = SampleObj(__kind__="Namespace", name="", parent="")
+    nsn = SampleObj(__kind__="Namespace", name="ns", parent=root)
+    cls = SampleObj(__kind__="InstantiatedClass", name="Derived", parent=nsn, is_virtual=virt, namespaces=lambda: ["", "ns"])
+    pname = SampleObj(__kind__="Typename", name="Base", namespaces=["ns"], instantiations=[]) if par else ""
+    try:
+        text = mini_exec(fn, {ps[0]: me, ps[1]: "ns", ps[2]: cls, ps[3]: pname, ps[4]: [], ps[5]: virt}, budget=12000, methods=_all_methods(prog, ci))
+    except (_PathEval.Unknown, _Raised, TypeError, KeyError):
+        return None
+    return (text, me) if isinstance(text, str) else None
+
+
+def rule_pointer_constructor_by_evaluation(ctx, rep: Report, rid="I9"):
+    """The branch of a generated MATLAB constructor that takes an existing C++ object over (`nargin == 2 && varargin{1} ==
+    uint64(5139824614673773682)`) registers the handle with the collector - by the id under which the
+    collectorInsertAndMakeBase routine of that class is named - keeps the base handle the routine hands back when the class
+    has a base (`base_ptr = ...`, used by `obj = obj@Base(..., base_ptr)`), and for a virtual class up-casts through the id
+    next to it.  Decided by running wrap_class_constructors (the analyser's own interpreter, sample classes) for the four
+    combinations of virtual / not virtual and with / without a base class, and reading the emitted text."""
+    from .rules_matlab import SampleObj, _PathEval, _Raised, mini_exec
+    ci, prog = mw(ctx)
+    fn = prog.method("MatlabWrapper", "wrap_class_constructors")
+    ps = func_params(fn)
+    methods = _all_methods(prog, ci)
+    loc = f"{ci.mod.rel}:{fn.lineno}"
+    if len(ps) != 6:
+        rep.add(rid, "wrap_class_constructors evaluated on sample classes", True, "signature changed; I3/I4 decide by structure", loc, nontrivial=False)
+        return
+    evaluated = 0
+    for virt in (False, True):
+        for par in (False, True):
+            me = SampleObj(module_name="mod", wrapper_id=7, wrapper_map={}, ignore_namespace=("Matrix", "Vector", "Point2", "Point3"), data_type={}, data_type_param={})
+            root = SampleObj(__kind__="Namespace", name="", parent="")
+            nsn = SampleObj(__kind__="Namespace", name="ns", parent=root)
+            cls = SampleObj(__kind__="InstantiatedClass", name="Derived", parent=nsn, is_virtual=virt, namespaces=lambda: ["", "ns"])
+            pname = SampleObj(__kind__="Typename", name="Base", namespaces=["ns"], instantiations=[]) if par else ""
+            label = f"{'virtual' if virt else 'plain'} class {'with' if par else 'without'} a base"
+            try:
+                text = mini_exec(fn, {ps[0]: me, ps[1]: "ns", ps[2]: cls, ps[3]: pname, ps[4]: [], ps[5]: virt}, budget=12000, methods=methods)
+            except (_PathEval.Unknown, _Raised, TypeError, KeyError):
+                continue
+            if not isinstance(text, str):
+                continue
+            evaluated += 1
+            wm = me.get("wrapper_map")
+            regs = [(k, v) for k, v in (wm.items() if isinstance(wm, dict) else []) if isinstance(v, (list, tuple)) and any(x == "collectorInsertAndMakeBase" for x in v)]
+            inserts = re.findall(r"^\s*((?:\w+\s*=\s*)?)(\w+)\((\d+),\s*my_ptr\);\s*$", text, re.M)
+            upcasts = re.findall(r"my_ptr\s*=\s*(\w+)\((\d+),\s*varargin\{2\}\);", text)
+            probs = []
+            if len(inserts) != 1:
+                probs.append(f"{len(inserts)} collector registration(s) of my_ptr in the pointer-constructor branch")
+            else:
+                prefix, gw, num = inserts[0]
+                if bool(prefix.strip()) != par:
+                    probs.append("the base handle handed back by the collector routine is " + ("dropped" if par else "assigned although the class has no base"))
+                elif par and not prefix.strip().startswith("base_ptr"):
+                    probs.append(f"the base handle is kept in `{prefix.strip()}`, the base constructor is given `base_ptr`")
+                if len(regs) != 1:
+                    probs.append(f"{len(regs)} collectorInsertAndMakeBase routine(s) registered")
+                else:
+                    rname = next((x for x in regs[0][1] if isinstance(x, str) and x.endswith("_" + str(regs[0][0])) or (isinstance(x, str) and re.search(r"_\d+$", x))), None)
+                    suffix = re.search(r"_(\d+)$", rname).group(1) if rname else None
+                    if suffix is not None and suffix != num:
+                        probs.append(f"the .m file registers through id {num}, the collector routine is {rname}")
+                if virt:
+                    if len(upcasts) != 1:
+                        probs.append(f"{len(upcasts)} up-cast call(s) for a virtual class")
+                    elif abs(int(upcasts[0][1]) - int(num)) != 1:
+                        probs.append(f"up-cast id {upcasts[0][1]} and registration id {num} are not neighbours")
+                elif upcasts:
+                    probs.append("an up-cast call for a class that is not virtual")
+            if par and not re.search(r"obj\s*=\s*obj@ns\.Base\(uint64\(5139824614673773682\),\s*base_ptr\);", text):
+                probs.append("the base-class constructor is not called with the base handle")
+            rep.add(rid, f"pointer constructor:{label}:registers under the collector routine's id and keeps the base handle", not probs,
+                    f"{probs}: an object handed back from C++ is registered under another routine, or its base handle is in no collector (never released, "
+                    f"and `base_ptr` is undefined when the base constructor is called)", loc)
+    rep.units["constructor_emitter_runs"] = evaluated
+    if evaluated == 0:
+        rep.add(rid, "wrap_class_constructors evaluated on sample classes", True, "not evaluable; I3/I4 decide by structure", loc, nontrivial=False)
